@@ -132,6 +132,41 @@ func VH_C15_overlay() {
 	}
 	dirContents, always := v.Bool("dir-contents"), v.Bool("always-replace")
 	dstArg := []string{"t", "t/", "n/m"}[v.Choose("dst-arg", 3)]
+	// (directory-contents mode only: without it an existing destination path of any type is taken as the
+	// container to copy into, cp style, and a non-directory container is an error either way)
+	if !dstHasT && dstArg == "t" && dirContents && v.Bool("dst-t-is-file") {
+		// the destination path itself exists as a non-directory: the source directory meets it at the
+		// top level (an error that leaves it in place, unless always-replace is set: then the source wins)
+		m.MkFile(dst+"/t", []byte("obstacle"), 0600, 2, 2, 9000000000)
+		v.Cover("top-level-obstacle")
+		srcSnap := m.Snapshot(src)
+		ci := CopyInfo{CopyDirContents: dirContents, AlwaysReplaceExistingDestPaths: always}
+		err := Copy(context.Background(), src, "t", dst, dstArg, WithCopyInfo(ci))
+		after := m.Snapshot(dst)
+		t := vh_findEntry(after, "t")
+		if !always {
+			v.Assert(err != nil, "a source directory meeting a non-directory at the destination path is an error (without always-replace)")
+			v.Assert(t != nil && t.Kind == m.KFile && string(t.Data) == "obstacle", "the obstacle at the destination path stays in place")
+			return
+		}
+		v.Assert(err == nil, "with always-replace the source directory replaces a non-directory at the destination path")
+		if err != nil {
+			return
+		}
+		v.Assert(t != nil && t.Kind == m.KDir, "the destination path is now a directory")
+		n := 0
+		for i := range srcSnap {
+			sp := srcSnap[i].Path
+			if !vh_isUnder(sp, "t") {
+				continue
+			}
+			n++
+			d := vh_findEntry(after, sp)
+			v.Assert(d != nil && d.Kind == srcSnap[i].Kind && string(d.Data) == string(srcSnap[i].Data) && d.Target == srcSnap[i].Target, "and holds the contents of the source directory")
+		}
+		v.Assert(len(after) == n+1, "and nothing else")
+		return
+	}
 	srcSnap, dstBefore := m.Snapshot(src), m.Snapshot(dst)
 
 	// where the source directory lands: a path ending in a separator names a directory to copy
